@@ -28,7 +28,7 @@ fn shard(ctx: &Ctx, rep: &mut Report) {
 	let mut seeder = Rng::new(ctx.seed ^ 0xC0FFEE);
 	let mut i = 0u64;
 	while i < n_cases && ctx.time_left() {
-		let case_seed = seeder.next();
+		let case_seed = seeder.next() >> 2; // keep it inside the JSON integer range
 		// the variant index walks the profile's configuration list so every configuration is
 		// visited by every shard regardless of the random stream
 		let variant = ctx.shard as u64 + i * ctx.nshards as u64;
@@ -36,6 +36,10 @@ fn shard(ctx: &Ctx, rep: &mut Report) {
 		rep.cases += 1;
 		ctx.checkpoint(rep);
 		i += 1;
+		if rep.get("violations_raw") >= 20 {
+			rep.notes.push(format!("shard {} stopped after 20 failing cases", ctx.shard));
+			break
+		}
 	}
 	if i < n_cases {
 		rep.notes.push(format!("shard {} stopped by its time budget after {} of {} cases", ctx.shard, i, n_cases));
